@@ -567,9 +567,19 @@ func evalDoc(d *Doc) *SpecDoc {
 		sx, sy := sd.VW/d.VB[2], sd.VH/d.VB[3]
 		if d.PAR {
 			vt = Aff{sx, 0, 0, sy, -d.VB[0] * sx, -d.VB[1] * sy}
-		} else { // xMidYMid meet
+		} else { // SVG 1.1 7.8: <align> [meet|slice], default xMidYMid meet
 			s := math.Min(sx, sy)
-			vt = Aff{s, 0, 0, s, -d.VB[0]*s + (sd.VW-d.VB[2]*s)/2, -d.VB[1]*s + (sd.VH-d.VB[3]*s)/2}
+			ax, ay := 0.5, 0.5
+			if f := strings.Fields(d.PARText); len(f) > 0 {
+				if len(f) > 1 && f[1] == "slice" {
+					s = math.Max(sx, sy)
+				}
+				if len(f[0]) == 8 {
+					ax = map[string]float64{"xMin": 0, "xMid": 0.5, "xMax": 1}[f[0][:4]]
+					ay = map[string]float64{"YMin": 0, "YMid": 0.5, "YMax": 1}[f[0][4:]]
+				}
+			}
+			vt = Aff{s, 0, 0, s, -d.VB[0]*s + (sd.VW-d.VB[2]*s)*ax, -d.VB[1]*s + (sd.VH-d.VB[3]*s)*ay}
 		}
 		sd.userW, sd.userH = d.VB[2], d.VB[3]
 	}
@@ -807,7 +817,7 @@ func oracle(c *hc.Ctx, d *Doc, svg string, p Parsed) {
 		}
 		if worst > tol {
 			// the regression/known class is named after the cause that applies to THIS element
-			feat := firstFeature(d, "aspect", "xform-comma", "viewbox-min-ge-size")
+			feat := firstFeature(d, "aspect-align-slice", "aspect", "xform-comma", "viewbox-min-ge-size")
 			_, hasRx := attrOf(s.N, "rx")
 			_, hasRy := attrOf(s.N, "ry")
 			switch {
